@@ -163,7 +163,8 @@ class DomReaderHarness(object):
         shapes = shapes or self.shapes
 
         def stub(I_, fi, args, kwargs, node):
-            recs = [materialise_record(sid, shape, self.open_options, i) for i, (sid, shape) in enumerate(shapes)]
+            oi = getattr(self, 'open_ids', None)
+            recs = [materialise_record(sid, shape, self.open_options and (oi is None or sid in oi), i) for i, (sid, shape) in enumerate(shapes)]
             I_.emit('dom-records', node, {'records': recs})
             return AList(recs)
         I.stubs[it.qualname] = stub
